@@ -36,20 +36,22 @@ Opt(rd, input) == [rd |-> rd, sh |-> NoSh, input |-> input, fork |-> FALSE, argv
 Opts(s) == CASE s = 1 -> <<Opt(<<U, U, U>>, -1), Opt(<<U, U, U>>, -1)>>
              [] s = 2 -> <<Opt(<<PIPE_, PIPE_, PIPE_>>, -1), Opt(<<PIPE_, PIPE_, R(T_STDOUT, 0, 0, "")>>, 2)>>
              [] s = 3 -> <<Opt(<<R(T_DISCARD, 0, 0, ""), R(T_PATH, 0, 0, "/d/f"), PIPE_>>, -1), Opt(<<PIPE_, R(T_PARENT, 0, 0, ""), R(T_PARENT, 0, 0, "")>>, -1)>>
+             \* the second thread starts a fork-mode child (no exec: the descriptor sweep alone decides what it holds)
+             [] s = 4 -> <<Opt(<<PIPE_, PIPE_, PIPE_>>, -1), [Opt(<<U, U, U>>, -1) EXCEPT !.fork = TRUE, !.argv = FALSE]>>
 
 K == [std |-> <<TRUE, TRUE, TRUE>>, hasInput |-> FALSE]
 RJ(r) == <<r.t, r.h, r.f, r.p>>
 \* (each thread also gives its child an extra environment entry of its own: C03 - the child gets the caller's entries plus
 \* exactly that one, and the caller's own environment is what it was when both calls have returned)
-StartCall(h, o) == [e |-> "call", fn |-> "start", h |-> h, argv |-> <<"/bin/c">>, term |-> 2,
+StartCall(h, o) == [e |-> "call", fn |-> "start", h |-> h, argv |-> <<"/bin/c">>, term |-> 2, noargv |-> IF o.argv THEN 0 ELSE 1,
                     o |-> [rin |-> RJ(o.rd[1]), rout |-> RJ(o.rd[2]), rerr |-> RJ(o.rd[3]), input |-> o.input,
-                           envb |-> 0, envx |-> <<"T=" \o ToString(h)>>,
+                           envb |-> 0, envx |-> <<"T=" \o ToString(h)>>, fork |-> IF o.fork THEN 1 ELSE 0,
                            stop |-> <<<<3, -1>>, <<0, 0>>, <<0, 0>>>>]]
 \* what each child must look like, whatever the interleaving: exactly what it looks like when started alone
 Kid(h, o) ==
   LET v == Verdict(o)
       kk == [K EXCEPT !.hasInput = o.input >= 0]
-  IN [h |-> h, cw |-> ChildWiring(v.eff, kk), cx |-> ChildExtra(v.eff), cenv |-> <<"P=1", "T=" \o ToString(h)>>,
+  IN [h |-> h, cw |-> ChildWiring(v.eff, kk), cx |-> ChildExtra(v.eff), cenv |-> IF o.fork THEN <<>> ELSE <<"P=1", "T=" \o ToString(h)>>,
       inw |-> IF v.eff[1].t = T_PIPE THEN (IF o.input >= 0 THEN 0 ELSE 1) ELSE -1]
 
 Script(s) ==
